@@ -40,6 +40,8 @@ VARIABLES
     wreg,       \* SendWaker.waker is Some (set by the first Pending poll, never cleared)
     wakes,      \* ghost: number of Waker::wake_by_ref calls so far
     asleep,     \* ghost: the last poll of wait_for(CREDIT) returned Pending and no wake-up has been issued since
+    badwake,    \* ghost: a notifier (on_rcvd of new bytes, grant, abort) woke a parked burst task at a moment at which
+                \*        balance() would still have answered Err(CREDIT): the wake-up came before the state change
     rcvd,       \* ghost: bytes received from the peer address on this path
     sent,       \* ghost: bytes handed to the IO sender for this path
     disc,       \* ghost: every on_sent so far reported at most the balance read before it (disciplined caller)
@@ -48,7 +50,7 @@ VARIABLES
     sp,         \* interleaving model: the burst task's program state
     res         \* result of the last completed call (call-granularity binding)
 
-vars == <<credit, state, wbit, wreg, wakes, asleep, rcvd, sent, disc, cons, task, sp, res>>
+vars == <<credit, state, wbit, wreg, wakes, asleep, badwake, rcvd, sent, disc, cons, task, sp, res>>
 
 NORMAL == 0
 GRANTED == 1
@@ -62,10 +64,10 @@ Sum(s) == IF s = <<>> THEN 0 ELSE Head(s) + Sum(Tail(s))
 
 -----------------------------------------------------------------------------
 (* shared implementation state as a record, so that steps are functions *)
-Shared == [credit |-> credit, state |-> state, wbit |-> wbit, wreg |-> wreg, wakes |-> wakes, asleep |-> asleep]
+Shared == [credit |-> credit, state |-> state, wbit |-> wbit, wreg |-> wreg, wakes |-> wakes, asleep |-> asleep, badwake |-> badwake]
 Install(sh) ==
     /\ credit' = sh.credit /\ state' = sh.state /\ wbit' = sh.wbit
-    /\ wreg' = sh.wreg /\ wakes' = sh.wakes /\ asleep' = sh.asleep
+    /\ wreg' = sh.wreg /\ wakes' = sh.wakes /\ asleep' = sh.asleep /\ badwake' = sh.badwake
 
 NoRet == [r |-> "unit", v |-> 0]
 RetMax == [r |-> "max", v |-> 0]          \* Ok(Some(usize::MAX))
@@ -77,9 +79,13 @@ Idle == [pc |-> "done", a |-> 0, w |-> FALSE, x |-> 0, ret |-> NoRet]
 Call(pc0, a, w) == [pc |-> pc0, a |-> a, w |-> w, x |-> 0, ret |-> NoRet]
 
 \* SendWaker::wake_by(CREDIT) -- one critical section of the SendWaker mutex
-WakeBy(sh) ==
+\* `changed`: the caller is a notifier that has (or should have) just made budget available.  The woken task may run at once
+\* (another worker thread): what it finds is the state at THIS moment, so the state change must precede the wake-up.
+Blocked(sh) == sh.state = NORMAL /\ sh.credit = 0          \* balance() would answer Err(CREDIT)
+WakeBy(sh, changed) ==
     LET fire == ~sh.wbit /\ sh.wreg IN
-    [sh EXCEPT !.wbit = TRUE, !.wakes = IF fire THEN @ + 1 ELSE @, !.asleep = IF fire THEN FALSE ELSE @]
+    [sh EXCEPT !.wbit = TRUE, !.wakes = IF fire THEN @ + 1 ELSE @, !.asleep = IF fire THEN FALSE ELSE @,
+               !.badwake = @ \/ (fire /\ sh.asleep /\ changed /\ Blocked(sh))]
 
 \* ONE atomic operation of the call c on the shared state sh; k = [c, sh]
 Step(k) ==
@@ -87,14 +93,14 @@ Step(k) ==
     CASE \* ---- on_rcvd(a): load state; fetch_add(a * N); wake_by(CREDIT)
          c.pc = "r_load"   -> [c |-> IF sh.state = NORMAL THEN [c EXCEPT !.pc = "r_add"] ELSE Done(NoRet), sh |-> sh]
       [] c.pc = "r_add"    -> [c |-> [c EXCEPT !.pc = "r_wake"], sh |-> [sh EXCEPT !.credit = @ + N * c.a]]
-      [] c.pc = "r_wake"   -> [c |-> Done(NoRet), sh |-> WakeBy(sh)]
+      [] c.pc = "r_wake"   -> [c |-> Done(NoRet), sh |-> WakeBy(sh, c.a > 0)]
          \* ---- balance(): load state; load credit; (credit = 0) load state again; (changed) wake_by
       [] c.pc = "b_load"   -> [c |-> IF sh.state = GRANTED THEN Done(RetMax)
                                       ELSE IF sh.state = ABORTED THEN Done(RetNone)
                                       ELSE [c EXCEPT !.pc = "b_credit"], sh |-> sh]
       [] c.pc = "b_credit" -> [c |-> IF sh.credit # 0 THEN Done(RetCredit(sh.credit)) ELSE [c EXCEPT !.pc = "b_reload"], sh |-> sh]
       [] c.pc = "b_reload" -> [c |-> IF sh.state = NORMAL THEN Done(RetWait) ELSE [c EXCEPT !.pc = "b_wake", !.x = sh.state], sh |-> sh]
-      [] c.pc = "b_wake"   -> [c |-> Done(IF c.x = GRANTED THEN RetMax ELSE RetNone), sh |-> WakeBy(sh)]
+      [] c.pc = "b_wake"   -> [c |-> Done(IF c.x = GRANTED THEN RetMax ELSE RetNone), sh |-> WakeBy(sh, FALSE)]
          \* ---- on_sent(a): load state; (NORMAL) fetch_sub(a)   [c.w: the subtraction wraps instead of saturating]
       [] c.pc = "s_load"   -> [c |-> IF sh.state = NORMAL THEN [c EXCEPT !.pc = "s_sub"] ELSE Done(NoRet), sh |-> sh]
       [] c.pc = "s_sub"    -> [c |-> Done(NoRet), sh |-> [sh EXCEPT !.credit = IF c.w THEN @ - c.a ELSE Max(@ - c.a, 0)]]
@@ -103,7 +109,7 @@ Step(k) ==
                               ELSE [c |-> Done(NoRet), sh |-> sh]
       [] c.pc = "a_cas"    -> IF sh.state = NORMAL THEN [c |-> [c EXCEPT !.pc = "g_wake"], sh |-> [sh EXCEPT !.state = ABORTED]]
                               ELSE [c |-> Done(NoRet), sh |-> sh]
-      [] c.pc = "g_wake"   -> [c |-> Done(NoRet), sh |-> WakeBy(sh)]
+      [] c.pc = "g_wake"   -> [c |-> Done(NoRet), sh |-> WakeBy(sh, TRUE)]
          \* ---- SendWaker::poll_wait_for(CREDIT): one critical section
       [] c.pc = "w_poll"   -> IF sh.wbit THEN [c |-> Done([r |-> "ready", v |-> 0]), sh |-> [sh EXCEPT !.wbit = FALSE, !.asleep = FALSE]]
                               ELSE [c |-> Done([r |-> "pending", v |-> 0]), sh |-> [sh EXCEPT !.wreg = TRUE, !.asleep = TRUE]]
@@ -130,13 +136,13 @@ Fill(cn, buf, pkts, takes) ==
 
 -----------------------------------------------------------------------------
 Init ==
-    /\ credit = 0 /\ state = NORMAL /\ wbit = FALSE /\ wreg = FALSE /\ wakes = 0 /\ asleep = FALSE
+    /\ credit = 0 /\ state = NORMAL /\ wbit = FALSE /\ wreg = FALSE /\ wakes = 0 /\ asleep = FALSE /\ badwake = FALSE
     /\ rcvd = 0 /\ sent = 0 /\ disc = TRUE /\ cons = ConsNew(0, 0)
     /\ task = [t \in {"rx", "ctl", "tx"} |-> Idle]
     /\ sp = [pc |-> "idle", bal |-> Unread, segs |-> <<>>, cont |-> "seg", used |-> 0, bursts |-> 0]
     /\ res = NoRet
 Reset ==
-    /\ credit' = 0 /\ state' = NORMAL /\ wbit' = FALSE /\ wreg' = FALSE /\ wakes' = 0 /\ asleep' = FALSE
+    /\ credit' = 0 /\ state' = NORMAL /\ wbit' = FALSE /\ wreg' = FALSE /\ wakes' = 0 /\ asleep' = FALSE /\ badwake' = FALSE
     /\ rcvd' = 0 /\ sent' = 0 /\ disc' = TRUE /\ cons' = ConsNew(0, 0)
     /\ task' = [t \in {"rx", "ctl", "tx"} |-> Idle]
     /\ sp' = [pc |-> "idle", bal |-> Unread, segs |-> <<>>, cont |-> "seg", used |-> 0, bursts |-> 0]
@@ -179,11 +185,11 @@ Segment(quota, buf, pkts) ==
     /\ \E f \in {Fill(ConsNew(LimitOf(sp.bal), quota), buf, pkts, <<>>)} :
        /\ cons' = f.cn
        /\ res' = [r |-> "seg", v |-> f.used, takes |-> f.takes]
-    /\ UNCHANGED <<credit, state, wbit, wreg, wakes, asleep, rcvd, sent, disc, task, sp>>
+    /\ UNCHANGED <<credit, state, wbit, wreg, wakes, asleep, badwake, rcvd, sent, disc, task, sp>>
 
 -----------------------------------------------------------------------------
 (* B. interleaving model: three tasks, one atomic operation per step.        *)
-Sh == <<credit, state, wbit, wreg, wakes, asleep>>
+Sh == <<credit, state, wbit, wreg, wakes, asleep, badwake>>
 TaskStep(t) ==
     /\ task[t].pc # "done"
     /\ \E k0 \in {[c |-> task[t], sh |-> Shared]} : \E k \in {Step(k0)} :
@@ -294,6 +300,9 @@ CreditNeverWraps == credit >= 0
 \* CREDIT while every other call has completed really has nothing it may send
 Quiet == task["rx"].pc = "done" /\ task["ctl"].pc = "done"
 ResumeOnRcvdOrGrant == (sp.pc = "asleep" /\ asleep /\ Quiet) => (state = NORMAL /\ credit = 0)
+\* ... and the wake-up is issued AFTER the state change (notifier linearization: change, then wake): a burst task that runs
+\* the moment it is woken finds budget; otherwise it parks again and nobody wakes it until the next datagram
+WakeAfterChange == ~badwake
 \* call-granularity form: after a completed call, a parked sender that has not been woken has no budget
 ResumeOnRcvdOrGrantCall == (asleep /\ sp.bal.r = "parked") => (state = NORMAL /\ credit = 0)
 \* once balance() reported the path dead nothing more leaves
